@@ -1,6 +1,7 @@
 SPECIFICATION Spec
 CONSTANTS
   Chars <- CharsQuick
+  UDigits = {"0", "a", "F"}
   MaxLen = 4
 INVARIANT HornerOK
 INVARIANT SepOK
